@@ -26,10 +26,22 @@ func valueFieldByName(v reflect.Value, fields []string) (out reflect.Value, ok b
 		v = v.Elem()
 	}
 
+	// v is not a structure (the path goes through a scalar)
+	if v.Kind() != reflect.Struct {
+		return reflect.Value{}, false
+	}
+
 	out = v.FieldByName(fields[0])
 
+	// the path ends on a pointer, it does not designate a value
+	if out.Kind() == reflect.Ptr && len(fields) == 1 {
+		if out.Type().Elem().Kind() == reflect.Struct {
+			return reflect.Value{}, false
+		}
+	}
+
 	// if pointer we dereference
-	if out.Kind() == reflect.Ptr {
+	if out.Kind() == reflect.Ptr && len(fields) > 1 {
 		if out.IsZero() {
 			out = reflect.New(out.Type().Elem())
 		} else {
